@@ -151,6 +151,42 @@ func runC39(h *hx.H) {
 			return
 		}
 	}
+	// long mantissas around exact halfway points: the decimal expansion of a midpoint
+	// between two adjacent float64 values followed by a tail of zeros and a final 1
+	// (just above the midpoint) or, with the last digit lowered, a tail of nines (just
+	// below); the decision then rests on digits far beyond the 17th
+	mids := []string{"9007199254740993", "18014398509481986", "36028797018963972", "9007199254740995"}
+	{
+		// 1 + 2^-53 and 2^-1074 * 1.5 written out exactly
+		one := new(big.Rat).SetFrac(new(big.Int).Add(new(big.Int).Lsh(big.NewInt(1), 53), big.NewInt(1)), new(big.Int).Lsh(big.NewInt(1), 53))
+		mids = append(mids, "F"+one.FloatString(53))
+	}
+	tails := []int{1, 20, 50, 100, 400}
+	if h.Thorough() {
+		tails = append(tails, 2, 5, 30, 63, 64, 65, 200, 800)
+	}
+	for _, mid := range mids {
+		frac := 0
+		digits := mid
+		if strings.HasPrefix(mid, "F") {
+			ip, fp, _ := strings.Cut(mid[1:], ".")
+			fp = strings.TrimRight(fp, "0")
+			digits, frac = ip+fp, len(fp)
+		}
+		for _, tl := range tails {
+			above := digits + strings.Repeat("0", tl-1) + "1"
+			lowered := new(big.Int)
+			lowered.SetString(digits, 10)
+			lowered.Sub(lowered, big.NewInt(1))
+			below := lowered.String() + strings.Repeat("9", tl)
+			for _, d := range []string{above, below, digits + strings.Repeat("0", tl)} {
+				for _, exp := range []int{0, -5, 7, -300, 280} {
+					check(decNumeral(d, frac+tl, exp, 0), false)
+					check(decNumeral(d, 0, exp-frac-tl, 0), true)
+				}
+			}
+		}
+	}
 	// hex floats
 	hexm := []string{"1", "3", "f", "10", "1fffffffffffff", "20000000000001", "3fffffffffffff", "1ffffffffffffff", "10000000000000000000001", "abcdef0123456789abcdef"}
 	step := 1
